@@ -65,7 +65,12 @@ Ltac b64run :=
                           lazymatch type of (f o a b) with val _ => idtac end;
                           let H := fresh "Hin" in
                           eassert (H : f o a b = _) by (b64run; py_canon_refl); rewrite H; clear H
-                      | context [?g ?o] =>       (* a module-level constant g_NAME O *)
+                      | context [?f ?o ?a (?g ?o)] =>       (* a module-level constant g_NAME O as operand *)
+                          lazymatch type of o with FloatOps _ => idtac end;
+                          lazymatch type of (g o) with val _ => idtac end;
+                          let H := fresh "Hin" in
+                          eassert (H : g o = _) by (b64run; py_canon_refl); rewrite H; clear H
+                      | context [?f ?o (?g ?o) ?b] =>
                           lazymatch type of o with FloatOps _ => idtac end;
                           lazymatch type of (g o) with val _ => idtac end;
                           let H := fresh "Hin" in
